@@ -954,7 +954,12 @@ func (e *Engine) verifyClosure(fi *FuncInfo, base, nth string) *FuncResult {
 // closureContractEnv: contract expressions of a function literal are evaluated in the
 // scope at the start of its body (its parameters and the captured variables are visible).
 func (c *Ctx) closureContractEnv(env *Env, lit *ast.FuncLit, bind map[string]Val, results []Val, old *State) *Env {
-	ce := &Env{c: c, fn: env.fn, pkg: env.pkg, contract: true, scopePos: lit.Body.Lbrace + 1, bound: map[string]Val{}, results: results, old: old, noSafety: true}
+	pos := lit.Body.Lbrace + 1
+	if results != nil {
+		// postconditions: the closure's own top-level locals are visible (like `checks` of functions)
+		pos = lit.Body.Rbrace
+	}
+	ce := &Env{c: c, fn: env.fn, pkg: env.pkg, contract: true, scopePos: pos, bound: map[string]Val{}, results: results, old: old, noSafety: true}
 	for k, v := range bind {
 		ce.bound[k] = v
 	}
